@@ -73,9 +73,12 @@ class C01(core.Prop):
                     out.append(pl.make_case(smi, cut, comps, OPT_VARIANTS[oi]))
                 # the same description handed over as a base *graph* built in another order than the reader builds it
                 # (MoleculeResolver.from_graph): node keys identify the coarse nodes, the insertion order means nothing
+                # (pipeline.VARIANTS: constructor x driver x earlier use of the library in the same process)
                 if len(comps) >= 2:
-                    for entry in (('graph_rev',) if tier == 'quick' else ('graph_rev', 'graph_rot')):
-                        out.append(pl.make_case(smi, cut, comps, dict(OPT_VARIANTS[0], entry=entry)))
+                    nv = len(pl.VARIANTS) - 1
+                    ks = [1 + (len(out) % nv)] if tier == 'quick' else [1 + ((len(out) + j * 3) % nv) for j in range(3)]
+                    for k in sorted(set(ks)):
+                        out.append(pl.make_case(smi, cut, comps, dict(OPT_VARIANTS[0], variant=k)))
         return out
 
     def build(self, shape):
@@ -83,7 +86,7 @@ class C01(core.Prop):
         return {'text': r.text, 'uncut': '{[#M]}.{#M=%s}' % shape['smiles'], 'holes': r.holes}
 
     def execute(self, M, shape, inp):
-        return [core.guard(pl.run_resolver, M, inp['text'], entry=shape['opts'].get('entry', 'string')),
+        return [core.guard(pl.run_variant, M, inp['text'], pl.VARIANTS[shape['opts'].get('variant', 0)]),
                 core.guard(pl.run_resolver, M, inp['uncut'])]
 
     def oracle(self, shape, inp, obs):
